@@ -11,4 +11,4 @@ def run(ctx):
                         "bucket keys {0, 65535} (quick) / {0, 1, 65535} (thorough), model low values {0, 1, 65535}"]
 
 def replay(ctx, rp):
-    return vlib.generic_replay(ctx, rp)
+    return vlib.replay_any(ctx, rp)
